@@ -294,6 +294,77 @@ theorem tco_tail_call_is_the_call (n : Nat) (fr : Frame) (e : Expr) (st : St) (r
   · left; rw [← h]; exact he
   · right; exact ⟨name, c, args, st1, k, hs, hT, hk, by rw [hF, h]⟩
 
+/-- Optimised ⟶ reference, with an explicit fuel bound. Whatever the optimised semantics answers
+with fuel `m` (a value, an error value, a stuck state — anything but "out of fuel"; same output and
+counters), the reference semantics answers with any fuel `N ≥ phi m = m (m + 7) / 2`: a tail
+iteration costs the optimised run one unit of fuel, the reference run needs the whole nesting. -/
+theorem tco_transparent_on_to_off (m N : Nat) (hN : phi m ≤ N) :
+    (∀ fr e st r st', FrameOk fr → eval m cT fr e false st = (r, st') → r ≠ .oof →
+        eval N cF fr e false st = (r, st')) ∧
+    (∀ fr c args tail st r st', FrameOk fr → callVal m cT fr c args tail st = (r, st') → r ≠ .oof →
+        callVal N cF fr c args tail st = (r, st')) ∧
+    (∀ h h2 c args st r st', callUser m cT h c args st = (r, st') → r ≠ .oof →
+        callUser N cF h2 c args st = (r, st')) ∧
+    (∀ h h2 c args rec rec2 st r st', tramp m cT h c args rec st = (r, st') → r ≠ .oof →
+        tramp N cF h2 c args rec2 st = (r, st')) ∧
+    (∀ ds fr st', runProgram m cT ds = (.ok fr, st') → runProgram N cF ds = (.ok fr, st')) ∧
+    (∀ ds r st', runProgram m cT ds = (.error r, st') → r ≠ .oof → runProgram N cF ds = (.error r, st')) := by
+  have H := simB m
+  obtain ⟨j, rfl⟩ : ∃ j, N = phi m + j := ⟨N - phi m, by omega⟩
+  have oof : ∀ r : Res, r ≠ .oof → r.isOof = false := by intro r; cases r <;> simp
+  have ok0 : FrameOk { env := [], self := none, height := 0 } := by intro _ _ h; cases h
+  refine ⟨?_, ?_, ?_, ?_, ?_, ?_⟩
+  · intro fr e st r st' hf h hr
+    have := H.evalF fr fr.height e st j hf (by rw [h]; exact oof r hr)
+    rw [← h]; exact this
+  · intro fr c args tail st r st' hf h hr
+    have := H.callVal fr fr.height c args tail st j hf (by rw [h]; exact oof r hr)
+    rw [← h]; exact this
+  · intro h h2 c args st r st' hh hr
+    rw [← hh]; exact H.callUser h2 h c args st j (by rw [hh]; exact oof r hr)
+  · intro h h2 c args rec rec2 st r st' hh hr
+    rw [← hh]; exact H.tramp h2 h c args rec2 rec st j (by rw [hh]; exact oof r hr)
+  · intro ds fr st' h
+    unfold runProgram at h ⊢
+    have := H.evalDecls _ 0 ds {} j ok0 (by rw [h]; rfl)
+    rw [h] at this
+    have hh := (evalDecls_frame _ _ _ _ _ _ _ h).2
+    rw [show ({ env := [], self := none, height := 0 } : Frame).atHeight 0 = { env := [], self := none, height := 0 } from rfl] at this
+    rw [this, setH_ok]
+    simp only at hh
+    rw [← hh]; rfl
+  · intro ds r st' h hr
+    unfold runProgram at h ⊢
+    have := H.evalDecls _ 0 ds {} j ok0 (by rw [h]; exact oof r hr)
+    rw [h] at this
+    exact this
+
+/-- **Transparency.** With no limits configured, the optimised and the reference semantics
+terminate on the same inputs with the same outcome — value or error value, stuck state, written
+output and counters: for an expression evaluated without the tail slot in a frame whose recursion
+cell holds a closure, for `eval_func_with_values` (any heights), and for whole programs. -/
+theorem tco_transparent :
+    (∀ fr e st r st', FrameOk fr → r ≠ .oof →
+      ((∃ n, eval n cT fr e false st = (r, st')) ↔ (∃ n, eval n cF fr e false st = (r, st')))) ∧
+    (∀ h h2 c args st r st', r ≠ .oof →
+      ((∃ n, callUser n cT h c args st = (r, st')) ↔ (∃ n, callUser n cF h2 c args st = (r, st')))) ∧
+    (∀ ds fr st', (∃ n, runProgram n cT ds = (.ok fr, st')) ↔ (∃ n, runProgram n cF ds = (.ok fr, st'))) ∧
+    (∀ ds r st', r ≠ .oof →
+      ((∃ n, runProgram n cT ds = (.error r, st')) ↔ (∃ n, runProgram n cF ds = (.error r, st')))) := by
+  refine ⟨?_, ?_, ?_, ?_⟩
+  · intro fr e st r st' hf hr
+    exact ⟨fun ⟨n, h⟩ => ⟨phi n, (tco_transparent_on_to_off n (phi n) (Nat.le_refl _)).1 fr e st r st' hf h hr⟩,
+      fun ⟨n, h⟩ => ⟨n, (tco_transparent_off_to_on n).1 fr e st r st' hf h hr⟩⟩
+  · intro h h2 c args st r st' hr
+    exact ⟨fun ⟨n, hh⟩ => ⟨phi n, (tco_transparent_on_to_off n (phi n) (Nat.le_refl _)).2.2.1 h h2 c args st r st' hh hr⟩,
+      fun ⟨n, hh⟩ => ⟨n, (tco_transparent_off_to_on n).2.2.1 h2 h c args st r st' hh hr⟩⟩
+  · intro ds fr st'
+    exact ⟨fun ⟨n, h⟩ => ⟨phi n, (tco_transparent_on_to_off n (phi n) (Nat.le_refl _)).2.2.2.2.1 ds fr st' h⟩,
+      fun ⟨n, h⟩ => ⟨n, (tco_transparent_off_to_on n).2.2.2.2.1 ds fr st' h⟩⟩
+  · intro ds r st' hr
+    exact ⟨fun ⟨n, h⟩ => ⟨phi n, (tco_transparent_on_to_off n (phi n) (Nat.le_refl _)).2.2.2.2.2 ds r st' h hr⟩,
+      fun ⟨n, h⟩ => ⟨n, (tco_transparent_off_to_on n).2.2.2.2.2 ds r st' h hr⟩⟩
+
 /-- `f(3, 0)` for the accumulator-style sum: both semantics give 6 -/
 example : callUser 40 cF 0 sumClos [.int 3, .int 0] {} = (.val (.int 6), {}) ∧
     callUser 40 cT 0 sumClos [.int 3, .int 0] {} = (.val (.int 6), {}) := by
